@@ -16,7 +16,7 @@ RULE = (
     "Nearest neighbour: the data value IS the element id (+1000*leading index), so the chosen source is read off the result and "
     "must lie in the brute-force tie group of great-circle-nearest elements of the data's own kind. IDW: the weights are recovered "
     "exactly by remapping unit impulses (identity matrix as data) - they must be >= 0, sum to 1, vanish outside the k nearest, not "
-    "increase with distance, and reproduce W @ data for random data and constants. Self-remap must be the identity. Non-trivial = "
+    "increase with distance, and reproduce W @ data for random data and constants. Self-remap must be the identity; the same source grid object is also remapped onto a second destination with the same element counts (rotated copy). Non-trivial = "
     "leading dimensions, or a size coincidence between element kinds, or file-supplied centres, or different source and destination."
 )
 ASSUMPTIONS = [
@@ -94,6 +94,10 @@ def run_case(ctx, case):
     else:
         md = gen.build(case["dst"])
         gd, gd_twin = ux.grid_from_mesh(md), ux.grid_from_mesh(md)
+    # a second destination with the same element counts but other positions (the destination mesh rigidly rotated): the same
+    # source grid object is remapped onto it right after the first one with the same arguments
+    md2 = gen.random_rotated(gen.build(case["dst"]) if not case["same"] else ms, case["dseed"] + 5)
+    gd2, gd2_twin = ux.grid_from_mesh(md2), ux.grid_from_mesh(md2)
     counts = {"n_node": gs_twin.n_node, "n_edge": gs_twin.n_edge, "n_face": gs_twin.n_face}
     lead = tuple(case["lead"])
     ldims = ["t%d" % i for i in range(len(lead))]
@@ -150,6 +154,21 @@ def run_case(ctx, case):
                         ctx.check("nn_nearest", good, sig, dict(det, **(why or {})))
                         if case["same"] and KINDS[dim] == remap_to:
                             ctx.check("nn_self_identity", np.array_equal(vals, data), sig, det)
+                    # second destination, same counts, same arguments, same source grid object
+                    with warnings.catch_warnings():
+                        warnings.simplefilter("ignore")
+                        r2 = da.remap.nearest_neighbor(gd2, remap_to=remap_to, coord_type=coord_type)
+                    P2 = positions(gd2_twin, remap_to)
+                    D2 = nn.distances("haversine", P_src, None, q_xyz=P2)
+                    v2 = np.asarray(r2.values)
+                    good2 = v2.shape == lead + (len(P2),) and r2.uxgrid is gd2
+                    if good2:
+                        for row in (v2 - off).reshape(-1, len(P2)):
+                            idx2 = np.rint(row).astype(int)
+                            if np.any(idx2 < 0) or np.any(idx2 >= ne) or np.any(D2[np.arange(len(P2)), idx2] > D2.min(axis=1) + 1e-9):
+                                good2 = False
+                                break
+                    ctx.check("nn_nearest", good2, dict(sig, destination="second_with_same_counts"), det)
                 except Exception as e:
                     ctx.check("no_exception", False, dict(sig, stage="nearest_neighbor", exc=core.exc_sig(e)), dict(det, exc=repr(e)[:300]))
                 # ------------------------------------------------ inverse distance weighted
